@@ -27,6 +27,8 @@ structure Cfg.Good (c : Cfg) : Prop where
   unixN : c.unixN = 7
   uType : c.uType = 4
   uInode : c.uInode = 6
+  /-- the host's Python can format IPv6 addresses (`Cfg.NoV6` in Proofs/C11NoV6.lean is the other case) -/
+  ntop6 : c.ntop6Fails = false
 
 theorem Cfg.Good.status {c : Cfg} (hg : c.Good) (st : Nat) (h1 : 1 ≤ st) (h2 : st ≤ 11) :
     c.tcpStatuses.lookup (hexW 2 st) = stateName st := by
@@ -154,8 +156,8 @@ theorem decode_v6 (c : Cfg) (hg : c.Good) (ip : Bytes) (hl : ip.length = 16) (hb
     have hne : ¬ (10 = 2) := by decide
     simp only [hne, if_false]
     cases hle : c.littleEndian
-    · simp [perWord, hl, endpoint]
-    · simp [perWord, swap32_length 4 ip h4, swap32_swap32 4 ip h4, hl, endpoint]
+    · simp [perWord, hl, endpoint, hg.ntop6]
+    · simp [perWord, swap32_length 4 ip h4, swap32_swap32 4 ip h4, hl, endpoint, hg.ntop6]
 
 theorem stateName_some (st : Nat) (h1 : 1 ≤ st) (h2 : st ≤ 11) : ∃ n, stateName st = some n := by
   match st, h1, h2 with
